@@ -2104,6 +2104,13 @@ func opcodeCheckMultiSig(op *ParsedOpcode, t *thread) error {
 		return errs.NewError(errs.ErrTooManyOperations, "exceeded max operation limit of %d", t.cfg.MaxOps())
 	}
 
+	// the keys are popped from the stack, so there cannot be more of them than stack items:
+	// refuse before sizing anything from the (untrusted) count
+	if numPubKeys > int(t.dstack.Depth()) {
+		return errs.NewError(errs.ErrInvalidStackOperation,
+			"number of pubkeys %d exceeds the stack depth %d", numPubKeys, t.dstack.Depth())
+	}
+
 	pubKeys := make([][]byte, 0, numPubKeys)
 	for i := 0; i < numPubKeys; i++ {
 		pubKey, err := t.dstack.PopByteArray() //nolint:govet // ignore shadowed error
